@@ -142,8 +142,10 @@ def stale_cells_of(concrete_history, upto):
   from . import fresh
   d = replay_history(concrete_history[:upto])
   d2, _ = fresh.fresh_load(d, formulas=False)
-  structural, cells = eqv.cells_diff(d.snapshot(), d2.snapshot())
-  return set((t, c, r) for (t, c, r, _, _) in cells), structural
+  snap = d.snapshot()
+  structural, cells = eqv.cells_diff(snap, d2.snapshot())
+  # only formula cells can be "stale"; data cells (trigger-formula columns included) are loaded, not recomputed
+  return set((t, c, r) for (t, c, r, _, _) in cells if col_kind(snap, t, c) in ('formula', 'helper')), structural
 
 
 def is_cycle_error_pair(va, vb):
